@@ -536,6 +536,40 @@ func genDoc(r *rng.R, wide bool) string {
 	return fmt.Sprintf("<html%s><style>%s</style><body%s>%s</body></html>", htmlStyle, strings.Join(g.css, "\n"), bodyStyle, body.String())
 }
 
+// genGridDoc: a plain table with many rows/cells and dense spans (the grid-slot assignment of wrapTable).
+func genGridDoc(r *rng.R) string {
+	var sb strings.Builder
+	sb.WriteString("<body><table>")
+	if r.P(1, 3) {
+		fmt.Fprintf(&sb, `<colgroup span="%d">`, r.Range(0, 3))
+		for i := r.Intn(3); i > 0; i-- {
+			fmt.Fprintf(&sb, `<col span="%d">`, r.Range(0, 3))
+		}
+		sb.WriteString("</colgroup>")
+	}
+	for g := r.Range(1, 3); g > 0; g-- {
+		gt := rng.Pick(r, "tbody", "thead", "tfoot", "tbody")
+		fmt.Fprintf(&sb, "<%s>", gt)
+		for row := r.Range(1, 6); row > 0; row-- {
+			sb.WriteString("<tr>")
+			for c := r.Range(0, 6); c > 0; c-- {
+				sb.WriteString("<td")
+				if r.P(1, 2) {
+					fmt.Fprintf(&sb, ` colspan="%d"`, r.Range(0, 4))
+				}
+				if r.P(1, 2) {
+					fmt.Fprintf(&sb, ` rowspan="%d"`, r.Range(0, 5))
+				}
+				sb.WriteString(">x</td>")
+			}
+			sb.WriteString("</tr>")
+		}
+		fmt.Fprintf(&sb, "</%s>", gt)
+	}
+	sb.WriteString("</table></body>")
+	return sb.String()
+}
+
 // ---------------------------------------------------------------- small exhaustive family (thorough)
 
 var exhDisplays = []string{"block", "inline", "inline-block", "table", "inline-table", "flex", "grid", "table-row", "table-row-group",
@@ -622,6 +656,26 @@ func (rn *runner) one(src string, seed uint64) error {
 		return nil
 	}
 	if raw.K == sx.List {
+		// the hypothesis `allW rawOK` of the composition theorem, evaluated on the real raw tree
+		rk, err := rn.m.Ask(sx.L(sx.A("rawok"), raw))
+		if err != nil {
+			return err
+		}
+		if rk.Head() != "ok" || len(rk.Xs) != 4 {
+			out.Add(res.Finding{Kind: "corr", Op: "corr:rawok:protocol", Input: src, Model: rk.String(), Seed: seed})
+		} else {
+			switch {
+			case rk.Xs[1].S == "1":
+				out.Hit("rawOK:holds")
+			case rk.Xs[2].S == "1":
+				out.Hit("rawOK:fails-only-by-running-inline(KF09-2 exclusion)")
+			default:
+				out.Add(res.Finding{Kind: "corr", Op: "corr:rawok", Input: src, Impl: pretty(raw), Reason: "the raw tree produced by elementToBox does not satisfy the hypothesis RawOK of the theorems", Seed: seed})
+			}
+			if rk.Xs[3].S != "1" {
+				out.Add(res.Finding{Kind: "corr", Op: "corr:rawok:root", Input: src, Impl: pretty(raw), Reason: "raw root is not a non-running block-level box", Seed: seed})
+			}
+		}
 		ans, err := rn.m.Ask(sx.L(sx.A("passes"), raw))
 		if err != nil {
 			return err
@@ -872,7 +926,7 @@ func Run(tier string, seed uint64, modelPath, repo string, out *res.Result) erro
 	out.Rule = "random HTML documents: 1-3 top-level items, <= ~10 elements, depth <= 4; every element gets display from the 20 values makeBox supports + none " +
 		"(mis-nested table parts on purpose), float, position (absolute/fixed/relative, running() in 1/4 of the documents), white-space, caption-side, " +
 		"colspan/rowspan/span attributes (valid, 0, negative, junk) on any element; real <table> markup with thead/tfoot/colgroup/col; ::before/::after/::marker with any display; " +
-		"list items; replaced elements (img/object/svg); mixed text (blank, spaces, newlines). Each document: L1 five passes vs model stage by stage, " +
+		"list items; replaced elements (img/object/svg); float:footnote (rare); mixed text (blank, spaces, newlines); every 10th document is a plain table with up to 3 groups x 6 rows x 6 cells and dense colspan 0-4 / rowspan 0-5 (grid-slot assignment). Each document: L1 five passes vs model stage by stage, " +
 		"L2 BuildFormattingStructure judged by WF and against the DOM. non-trivial = raw tree contains a table-part/flex/grid box or a block inside an inline; distinct by source text. " +
 		"thorough adds the exhaustive family of <=3 nested/sibling elements x 17 display values."
 	if err := runLattice(m, out); err != nil {
@@ -894,7 +948,13 @@ func Run(tier string, seed uint64, modelPath, repo string, out *res.Result) erro
 	for i := 0; i < n; i++ {
 		cr := r.Sub()
 		cs := cr.Seed()
-		src := genDoc(cr, i%4 == 0)
+		var src string
+		if i%10 == 9 {
+			src = genGridDoc(cr)
+			out.Hit("stream:grid")
+		} else {
+			src = genDoc(cr, i%4 == 0)
+		}
 		if i < 3 {
 			out.Sample(map[string]interface{}{"html": src, "seed": cs})
 		}
